@@ -715,8 +715,8 @@ def oracle(ctx, volume=1):
                  "the oracle constructs the real objects and executes every accepted schedule",
                  "former defects D13 (non-iterable schedule -> UnboundLocalError) and D14 (StandardQmpt accepted trailing items) are fixed in /repo "
                  "(d4e3672, d963183); their oracle signatures stay live",
-                 "open finding D18: a schedule that is an iterable but not a sequence (generator, dict, set) with fine items escapes as raw TypeError / KeyError "
-                 "(model: Schedule.nonSequence; witness reject_is_schedule_error_nonSequence_fails; reject_item_or_order is scoped to sequences / non-iterables)",
+                 "former defect D18 (generator / dict / set schedule with fine items escaped as raw TypeError / KeyError) is fixed in /repo (df6ca25): "
+                 "such schedules now get the schedule-order error (model: Schedule.nonSequence); the oracle signatures .../non-sequence-schedule/raises-* stay live",
                  "accepted_executable proves executability and the outcome shape; non-negativity, normalisation and the Born rule are oracle-only"]
     # (a) constructor over the exhaustive single-schedule language, multi lists and random long schedules
     n = 0
